@@ -64,6 +64,9 @@ func (d *Dialer) connect() net.Conn {
 	d.mu.Lock()
 	l, r := d.addrs(len(d.Conns))
 	a, b := Pipe(l, r)
+	if d.Network == "udp" {
+		a.MaxDatagram = 65507
+	}
 	d.Conns = append(d.Conns, b)
 	d.Impl = append(d.Impl, a)
 	cb := d.OnConn
